@@ -11,7 +11,8 @@
     encoding [ES], which has the default VALUES; [schemas_agree] ties it to [VS]) and its argument
     literals as C05 literals; nodes that are neither fields nor spreads are [AOther] (they only push
     and pop the multiplier).  The fields of the introspection schema have the cost function
-    FieldResolverCost(0); no other field of the envelope has one ([af_cost = None]: the default cost).
+    FieldResolverCost(0); list-typed fields of the composed stream's schemas have {Resolver 2,
+    Multiplier 3}; no other field has a cost function ([af_cost = None]: the default cost).
 
     ValidateDocument runs every rule and then filters: secondary errors are dropped when there is a
     primary one.  So the request is rejected iff the standard rules or the cost rule report
@@ -65,6 +66,31 @@ Section Request.
   Definition zero_cost : unit -> Cost.CostArgs.amap -> option (Cost.CostModel.fcost unit) :=
     fun _ _ => Some {| Cost.CostModel.fc_r := 0%Z; Cost.CostModel.fc_m := 0%Z; Cost.CostModel.fc_ctx := None |}.
 
+  (** the cost functions of the schemas of the composed stream (harness/cmd/c03/exe/api.go [Build]):
+      a field whose type is a list, under any non-null wrapper, costs 2 and multiplies by 3 *)
+  Definition field_type_of (T n : ExeA.ArgData.name) : option ExeA.ArgData.sty :=
+    match ExeA.ArgData.lookup_type ES T with
+    | Some (ExeA.ArgData.NObject fs _) => ExeA.ArgData.assoc n fs
+    | Some (ExeA.ArgData.NInterface fs) => ExeA.ArgData.assoc n fs
+    | _ => None
+    end.
+  Definition is_list_sty (t : ExeA.ArgData.sty) : bool :=
+    match t with
+    | ExeA.ArgData.StList _ | ExeA.ArgData.StNonNull (ExeA.ArgData.StList _) => true
+    | _ => false
+    end.
+  Definition list_field (parent : option Vld.Ast.name) (n : Vld.Ast.name) : bool :=
+    match parent with
+    | Some T => match field_type_of T n with Some t => is_list_sty t | None => false end
+    | None => false
+    end.
+  Definition list_cost : unit -> Cost.CostArgs.amap -> option (Cost.CostModel.fcost unit) :=
+    fun _ _ => Some {| Cost.CostModel.fc_r := 2%Z; Cost.CostModel.fc_m := 3%Z; Cost.CostModel.fc_ctx := None |}.
+  Definition cost_function (parent : option Vld.Ast.name) (n : Vld.Ast.name)
+    : option (unit -> Cost.CostArgs.amap -> option (Cost.CostModel.fcost unit)) :=
+    if introspection_field parent n then Some zero_cost
+    else if list_field parent n then Some list_cost else None.
+
   Fixpoint c_sel (parent : option Vld.Ast.name) (s : Vld.Ast.selection) : cnode :=
     match s with
     | Vld.Ast.SField a _ n _ args _ sub =>
@@ -78,7 +104,7 @@ Section Request.
                                                 | None => []
                                                 end;
                     Cost.CostArgs.af_args := map (fun x => (Vld.Ast.a_name x, l_of_vld (Vld.Ast.a_value x))) args;
-                    Cost.CostArgs.af_cost := if introspection_field parent n then Some zero_cost else None |}
+                    Cost.CostArgs.af_cost := cost_function parent n |}
            | None => Cost.CostArgs.ANoDef (bytes_eqb n ExeA.ArgData.n_typename)
            end)
           (match sub with Some ss => [c_ss ss] | None => [] end)
